@@ -488,7 +488,10 @@ def run(ctx: core.Ctx) -> None:
                                                               for k, v in table.items()}
     global _BASE
     _BASE = ctx.scratch
-    explore(ctx, inputs, depth_of, deadline)
+    try:
+        explore(ctx, inputs, depth_of, deadline)
+    finally:
+        _BASE = None        # replays after the run use (and remove) their own directory
     ctx.rule = (
         'inputs: tests/test_vec/rot_main.bsp with the entity lump cut to 40 entities + independently encoded, fully '
         'populated BSPs for 7 layouts (v19, v20, v21, L4D2 header order, INFRA v22, Chaos v25, VitaminSource v43) x '
